@@ -709,7 +709,7 @@ class FileEdges(object):
         comp = env.MibCompiler(parser, env.make_codegen(case['backend']), w)
         comp.addSources(env.DictReader(texts, tag='only'))
         comp.addSearchers(env.StubSearcher(*env.BASE_NAMES))
-        sig = 'C01|J|begin=%s|end=%s' % (','.join(sorted(set(repr(self.BEGIN[b]) for b, e in case['edges']))),
+        sig = '%s|J|begin=%s|end=%s' % (getattr(self, 'prefix', 'C01'), ','.join(sorted(set(repr(self.BEGIN[b]) for b, e in case['edges']))),
                                        ','.join(sorted(set(repr(self.END[e]) for b, e in case['edges']))))
         try:
             res = comp.compile(*request)
@@ -774,6 +774,45 @@ class ImportGroups(object):
         return repr(sorted((k, str(v)) for k, v in res.items())), vs, 1
 
 
+class LineEnds(object):
+    name = 'M-line-ends-and-comments'
+    describe = ('two modules whose OID values are spread over several lines, every line with or without a trailing comment, the line '
+                'ends LF, CR LF, lone CR and mixtures of them (as files that went through several editors have): both back ends, every '
+                'OID is the declared one whatever ends the lines and the comments')
+
+    B = ('B-MIB DEFINITIONS ::= BEGIN\nIMPORTS enterprises\n FROM SNMPv2-SMI;\nbRoot OBJECT IDENTIFIER\n ::= { enterprises\n 21 }\n'
+         'bLeaf OBJECT IDENTIFIER ::= {\n bRoot\n 7\n 2 }\nEND')
+    A = ('A-MIB DEFINITIONS ::= BEGIN\nIMPORTS bLeaf\n FROM B-MIB;\naNode OBJECT IDENTIFIER ::= { bLeaf\n 1 }\nEND')
+
+    def blocks(self, tier):
+        return [{'backend': b} for b in ('json', 'pysnmp')]
+
+    def cases(self, block, tier):
+        from mc.checks import C03
+        for comments in (0, 1):
+            for ta in range(len(C03.LineEnds.TERMS)):
+                for tb in range(len(C03.LineEnds.TERMS)):
+                    yield {'backend': block['backend'], 'comments': comments, 'ta': ta, 'tb': tb}
+
+    def run_case(self, case):
+        from mc.checks import C03
+        T = C03.LineEnds.TERMS
+        a = C03.relayout(self.A, case['comments'], T[case['ta']])
+        b = C03.relayout(self.B, case['comments'], T[case['tb']])
+        want = {'A-MIB': set(['1.3.6.1.4.1.21.7.2.1']), 'B-MIB': set(['1.3.6.1.4.1.21', '1.3.6.1.4.1.21.7.2'])}
+        parser = env.shared_parser('smiV2')
+        parser.reset()
+        res, written = env.compile_set({'A-MIB': a, 'B-MIB': b}, ['A-MIB'], codegen=case['backend'], dialect=parser)
+        sig = 'C01|M|%s|%s' % ('comments' if case['comments'] else 'plain', case['backend'])
+        vs = []
+        for n in ('A-MIB', 'B-MIB'):
+            if res.get(n) != 'compiled':
+                vs.append(('%s|valid-module-%s' % (sig, res.get(n)), '%s: %r\n%r' % (n, getattr(res.get(n), 'error', None), b if n == 'B-MIB' else a)))
+            elif set(getattr(res[n], 'oids', ()) or ()) != want[n]:
+                vs.append(('%s|status.oids-differ' % sig, '%s: %r, declared %r\n%r' % (n, sorted(res[n].oids), sorted(want[n]), b if n == 'B-MIB' else a)))
+        return repr(sorted((k, str(v)) for k, v in res.items())), vs, 1
+
+
 def _parents_from_the_old_base_modules():
     from mc.checks import C16
 
@@ -785,4 +824,4 @@ def _parents_from_the_old_base_modules():
     return OldBaseParents()
 
 
-FAMILIES = [_parents_from_the_old_base_modules(), Shapes(), Spellings(), Kinds(), SameNames(), ArcZero(), TableOrders(), ArcValues(), NoDepsChains(), AfterFailures(), FileEdges(), ImportGroups()]
+FAMILIES = [_parents_from_the_old_base_modules(), Shapes(), Spellings(), Kinds(), SameNames(), ArcZero(), TableOrders(), ArcValues(), NoDepsChains(), AfterFailures(), FileEdges(), ImportGroups(), LineEnds()]
